@@ -137,12 +137,12 @@ def corpus_cases(start, step):
         )
 
 
-def stream_cases(rng, n_streams, max_pairs=8, big=False):
+def stream_cases(rng, n_streams, max_pairs=8, big=False, exactly=None):
     """Streams of generated pairs.  Yields (Case(CommandResponseStream), [message cases])."""
     g = gen.Gen(rng, big=big)
     allcc = gen.ccs(g.P)
     for _ in range(n_streams):
-        n = rng.randint(1, max_pairs)
+        n = exactly or rng.randint(1, max_pairs)
         msgs = []
         data = b""
         sig = []
